@@ -281,6 +281,11 @@ fn scenarios(tier: Tier) -> Vec<Scenario> {
         long.extend_from_slice(b"\nPUBLIC 9000 0 after_long_line\n");
         v.push(base("over-long-line", Kind::Symbols, vec![script_full("content-length", &long)]));
         v.push(base("over-long-line", Kind::Symbols, vec![script_split(&long, &[BODY.len() + 5000, BODY.len() + 100_000], true)]));
+        // the same line as the LAST line of the body, unterminated: whatever the download decides, the cached
+        // copy must reload to the same table and URL
+        let tail_long: Vec<u8> = long[..BODY.len() + 14 + 170 * 1024].to_vec();
+        v.push(base("over-long-last-line-unterminated", Kind::Symbols, vec![script_full("content-length", &tail_long)]));
+        v.push(base("over-long-last-line-unterminated", Kind::Symbols, vec![script_split(&tail_long, &[BODY.len() + 5000, BODY.len() + 100_000], true)]));
     }
     // a redirect that IS followed (same server, second connection): the URL reported for the download and the
     // URL noted in the cache entry must agree (a cache-only lookup later reports the noted one)
@@ -575,12 +580,18 @@ fn check_scenario_inner(sc: &Scenario, l: &mut Local) {
                 let target = logs[w].first().and_then(|l| l.split_whitespace().nth(1)).unwrap_or("").to_string();
                 let url = format!("{}{}", urls[w].trim_end_matches('/'), target);
                 let mut want = scripts[w].delivered.clone().unwrap();
+                // the note follows the downloaded bytes; after an unterminated last line it may start on a line
+                // of its own (what it must do for the reload below to see it) or directly
+                let mut want_sep: Option<Vec<u8>> = None;
                 if sc.kind == Kind::Symbols {
+                    if want.last().is_some_and(|b| *b != b'\n') {
+                        want_sep = Some([&want[..], format!("\nINFO URL {url}\n").as_bytes()].concat());
+                    }
                     want.extend_from_slice(format!("INFO URL {url}\n").as_bytes());
                 }
                 if cf.len() != 1 || cf[0].0 != rel {
                     fail(l, "cache-entry-count-or-path", format!("after an Ok run the cache holds {:?}, expected exactly [{rel}]", cf.iter().map(|f| &f.0).collect::<Vec<_>>()));
-                } else if cf[0].1 != want {
+                } else if cf[0].1 != want && Some(&cf[0].1) != want_sep.as_ref() {
                     fail(l, "cache-content", format!("cache file ({} bytes) is not the downloaded bytes{} ({} bytes)", cf[0].1.len(), if sc.kind == Kind::Symbols { " followed by the INFO URL note" } else { "" }, want.len()));
                 }
                 match res {
